@@ -389,12 +389,17 @@ pub fn subs() -> Vec<Box<dyn DynSub>> {
 
 pub fn run(ctx: &Ctx) -> EvidenceMeta {
   let subs = all_subs();
-  let max_len = ctx.n(5, 6) as usize;
+  let child = ctx.is_clock_child();
+  let max_len = if child { 4 } else { ctx.n(5, 6) as usize };
   let mut jobs: Vec<Job> = vec![];
+  if !child {
+    // the same histories with the wall clock SET to calendar boundaries (child processes under tools/fakeclock.c)
+    jobs.push(Box::new(move || ctx.clock_children(&crate::tgen::special_clocks(ctx.quick()))));
+  }
   // builders that wait before building (each case sleeps; they run side by side with everything else)
   let slow = &LongLivedBuilder;
   let waits: Vec<(Proto, u32)> = if ctx.quick() { vec![(Proto::V4L, 5600), (Proto::V2P, 3100)] } else { vec![(Proto::V4L, 5600), (Proto::V2P, 3100), (Proto::V3L, 31_000), (Proto::V4P, 61_000)] };
-  for (proto, wait_ms) in waits {
+  for (proto, wait_ms) in waits.into_iter().filter(|_| !child) {
     jobs.push(Box::new(move || ctx.enumerate(slow, std::iter::once(SlowCase { proto, wait_ms }), false)));
   }
   for s in &subs {
@@ -413,6 +418,7 @@ pub fn run(ctx: &Ctx) -> EvidenceMeta {
       }
     } else {
       let n = (ctx.n(10_000, 100_000) / s.proto.cost().min(20)).max(300);
+      let n = if child { (n / 10).max(60) } else { n };
       jobs.push(Box::new(move || ctx.prop(s, random_case(s.proto, 30), n)));
     }
   }
